@@ -340,23 +340,25 @@ func load(T types.Type, addr *value) value {
 	}
 }
 
-// store stores value v of type T into *addr.
-func store(T types.Type, addr *value, v value) {
+// store stores value v of type T into *addr, recording the old contents in
+// the undo log (mutations after package initialisation are rolled back
+// between paths).
+func (i *interpreter) storeRaw(T types.Type, addr *value, v value) {
 	switch T := T.Underlying().(type) {
 	case *types.Struct:
 		lhs := (*addr).(structure)
 		rhs := v.(structure)
-		for i := range lhs {
-			store(T.Field(i).Type(), &lhs[i], rhs[i])
+		for k := range lhs {
+			i.storeRaw(T.Field(k).Type(), &lhs[k], rhs[k])
 		}
 	case *types.Array:
 		lhs := (*addr).(array)
 		rhs := v.(array)
-		for i := range lhs {
-			store(T.Elem(), &lhs[i], rhs[i])
+		for k := range lhs {
+			i.storeRaw(T.Elem(), &lhs[k], rhs[k])
 		}
 	default:
-		*addr = v
+		i.setCell(addr, v)
 	}
 }
 
